@@ -111,6 +111,28 @@ CORPUS = [
     '(set-logic QF_LIA)(set-info :source x)(declare-const x Int)'
     '(assert (> (+ x 1) 2))(check-sat)(set-info :status unsat)'
     '(assert (< (* x 2) 3))(check-sat)',
+    # quoted symbols in every role (variables of all sorts, functions,
+    # parameters, binders, datatypes); names that clash only modulo quoting
+    '(declare-const |a b| (_ BitVec 8))(declare-const |_c d| (_ BitVec 8))'
+    '(declare-const |c d| (_ BitVec 8))(declare-const |s t| String)'
+    '(declare-const u String)(declare-const |x y| Int)(declare-const |r| Real)'
+    '(declare-fun |f g| (Int) Int)(define-fun |h h| ((|p q| Int)) Int '
+    '(+ |p q| 1))(define-fun |k| () Int 3)'
+    '(declare-datatype |D t| ((|c 1|) (|c 2| (|s 1| Int))))'
+    '(declare-const |d v| |D t|)(assert (= (bvadd |a b| |c d|) |_c d|))'
+    '(assert (str.contains u |s t|))(assert (str.contains |s t| "a b"))'
+    '(assert (> (|f g| (|h h| |x y|)) |k|))'
+    '(assert (let ((|l v| (+ |x y| 1))) (> |l v| 2)))'
+    '(assert (exists ((|q v| Int)) (> |q v| |x y|)))'
+    '(assert (= (|s 1| (|c 2| 4)) 4))(assert (= |d v| |c 1|))'
+    '(assert (< |r| 2.5))(check-sat)',
+    '(declare-const |v| (_ BitVec 8))(declare-const _v (_ BitVec 8))'
+    '(declare-const w (_ BitVec 8))(declare-const |_w| (_ BitVec 8))'
+    '(declare-const s String)(declare-const |s_prefix| String)'
+    '(declare-const t String)(declare-const |t_suffix| String)'
+    '(assert (= (bvadd |v| _v) (bvadd w |_w|)))'
+    '(assert (str.contains s |s_prefix|))(assert (str.contains t |t_suffix|))'
+    '(check-sat)',
     # a top-level node with many children (binary reduction)
     '(declare-const z Int)(assert (and (> z 0) (> z 1) (> z 2) (> z 3) (> z 4)'
     ' (> z 5) (> z 6) (> z 7) (> z 8) (> z 9)))'
@@ -134,6 +156,13 @@ def all_mutators(names=None):
     return out
 
 
+def _bare(name):
+    """|abc| and abc are the same symbol (SMT-LIB 2.6, 3.1)."""
+    if len(name) >= 2 and name[0] == '|' and name[-1] == '|':
+        return name[1:-1]
+    return name
+
+
 def declared_symbols(exprs):
     out = set()
     for e in exprs:
@@ -141,7 +170,7 @@ def declared_symbols(exprs):
                 e.get_ident() in ('declare-const', 'declare-fun', 'define-fun',
                                   'declare-sort', 'define-sort',
                                   'declare-datatype'):
-            out.add(e[1].data)
+            out.add(_bare(e[1].data))
     return out
 
 
@@ -170,7 +199,7 @@ def check_proposal(exprs, simp, what, read=None):
         if not (isinstance(v, Node) and v.has_ident() and len(v) > 1
                 and v[1].is_leaf()):
             return f'{what}: malformed declaration {v!r}'
-        if v[1].data in declared:
+        if _bare(v[1].data) in declared:
             return (f'{what}: declares {v[1].data!r}, which the input already '
                     f'declares')
     try:
